@@ -23,7 +23,8 @@ ASSUMPTIONS = [
     'oracle: numpy.linalg.pinv / explicit loops; the transformed data matrix is built by the harness (c15.psi_ref)',
     'thresholds lie below the smallest relevant singular-value ratio: cases with a singular-value ratio of an unfolding of Psi in '
     '(1e-12, 1e-5) are discarded; threshold 0 only for spectra without numerically zero singular values',
-    'kernel variant: cond(Gram) < 1e8',
+    'kernel variant: Gram matrix regular (cond < 1e8) or exactly rank-deficient (more snapshots than product basis functions, '
+    'duplicated snapshot) with a well-conditioned non-zero part',
     'ARR: the same guard band applies to Psi and to the per-mode function-value matrices (ill-conditioned least-squares '
     'problems descend only up to rounding times the condition number)',
     'ARR: initial guess is a TT (a list of TTs is documented to be used in place) with ranks admissible from both sides',
@@ -120,7 +121,13 @@ def kernel_case(draw):
     d = draw(st.integers(1, 3))
     p = draw(st.integers(1, 3))
     phi = [[c15.fn_spec(draw, d) for _ in range(draw(st.sampled_from([2, 3, 3])))] for _ in range(p)]
-    return {'d': d, 'm': draw(st.sampled_from([1, 2, 3, 4, 6])), 'phi': phi, 'seed': draw(gen.SEED), 'dy': draw(st.integers(1, 3))}
+    N = int(np.prod([len(f) for f in phi]))
+    gram = draw(st.sampled_from(['regular', 'regular', 'extra_snapshots', 'duplicate']))
+    m = draw(st.sampled_from([1, 2, 3, 4, 6]))
+    if gram == 'extra_snapshots':
+        m = N + draw(st.integers(1, 3))         # more snapshots than product basis functions: singular Gram matrix
+    return {'d': d, 'm': m, 'phi': phi, 'seed': draw(gen.SEED), 'dy': draw(st.integers(1, 3)), 'duplicate': gram == 'duplicate' and m >= 2,
+            'gram': gram}
 
 
 def body_kernel(c):
@@ -132,12 +139,16 @@ def body_kernel(c):
     vals = [np.array([[c15.ref_value(s, x[:, j]) for j in range(m)] for s in f]) for f in c['phi']]
     M = c15.psi_ref(vals).reshape(-1, m)
     G = M.T @ M
-    assume(np.linalg.cond(G) < 1e8)
+    sv = np.linalg.svd(M, compute_uv=False)
+    assume(sv[0] > 0)
+    # either a regular Gram matrix (cond < 1e8) or an exactly rank-deficient one whose non-zero part is well conditioned
+    assume(not np.any((sv > 1e-12 * sv[0]) & (sv < 1e-4 * sv[0])))
+    singular = bool(np.any(sv <= 1e-12 * sv[0])) or m > M.shape[0]
     z = reg.mandy_kb(x.copy(), y.copy(), phi)
     require(isinstance(z, np.ndarray) and z.shape == (c['dy'], m), 'kernel_shape', 'z has shape %s' % (getattr(z, 'shape', None),))
     want = y @ np.linalg.pinv(M) @ M
     close(z @ G, want, 1e-6, max(np.max(np.abs(y)), 1.0), 'kernel_value', 'z G vs y pinv(Psi) Psi (fitted values)')
-    lab = {'kernel'}
+    lab = {'kernel', 'singular_gram' if singular else 'regular_gram'}
     if c['dy'] > 1:
         lab.add('several_outputs')
     if m == 1:
@@ -218,13 +229,13 @@ def body_arr(c):
 
 
 def nt(labels):
-    return bool({'duplicated_snapshot', 'underdetermined', 'add_one_false', 'd1', 'several_outputs', 'exactly_fittable', 'threshold>0'} & set(labels))
+    return bool({'singular_gram', 'duplicated_snapshot', 'underdetermined', 'add_one_false', 'd1', 'several_outputs', 'exactly_fittable', 'threshold>0'} & set(labels))
 
 
 SUBCHECKS = [
     Sub('mandy', mandy_case(), body_mandy, nt, quick=400, thorough=4000, shards_quick=4,
         classes=['mandy_cm', 'mandy_fm', 'duplicated_snapshot', 'underdetermined', 'overdetermined', 'add_one_false', 'threshold>0', 'd1']),
-    Sub('kernel', kernel_case(), body_kernel, nt, quick=300, thorough=3000, classes=['kernel', 'several_outputs']),
+    Sub('kernel', kernel_case(), body_kernel, nt, quick=300, thorough=3000, classes=['kernel', 'several_outputs', 'singular_gram', 'regular_gram']),
     Sub('arr', arr_case(), body_arr, nt, quick=150, thorough=1500, shards_quick=6, budget_quick=150,
         classes=['arr', 'several_outputs', 'exactly_fittable', 'repeats1', 'repeats4']),
 ]
